@@ -59,6 +59,8 @@ structure Inst (α : Type) where
   stats : List (Nat × α) := []
   /-- the instance's own weakness entries (damage type ↦ weak / explicitly not weak) -/
   weak : List (Nat × Bool) := []
+  /-- the instance's own resistances per behaviour flag -/
+  dres : List (Nat × α) := []
 deriving Inhabited
 
 /-- what a caller passes to `AddModifier` -/
@@ -72,6 +74,7 @@ structure Desc (α : Type) where
   tickImm : Bool := false
   stats : List (Nat × α) := []
   weak : List (Nat × Bool) := []
+  dres : List (Nat × α) := []
   /-- base chance to apply (`[]` or not positive: always applies) -/
   chance : List α := []
 
@@ -146,7 +149,7 @@ def newInstance (cat : Catalog α) (s : St α) (d : Desc α) : Inst α :=
   let count := if (c.stacking == 1 || c.stacking == 2 || c.stacking == 6) && count ≤ 0 && countAdd > 0
                then countAdd else count
   { uid := s.nextUid, name := d.name, source := d.source, dur := dur, count := count, maxCount := maxCount,
-    countAdd := countAdd, tickImm := d.tickImm, renew := s.turnCount, stats := d.stats, weak := d.weak }
+    countAdd := countAdd, tickImm := d.tickImm, renew := s.turnCount, stats := d.stats, weak := d.weak, dres := d.dres }
 
 def stackCount (i : Inst α) (prev : Int) : Int :=
   if prev < 0 || i.count < 0 then i.count
@@ -328,11 +331,18 @@ def dispelSel (l : List (Inst α)) (status : Nat) (order : Nat) (count : Int) (s
     (uniq (shuffle.filterMap fun p => (dispelCand cat l status)[p]?)).take n
   else dispelIdx cat l status order count
 
-/-- `DebuffRESMap.GetDebuffRES`: the largest resistance among the given flags (0 if none) -/
-def debuffRes (m : List (Nat × α)) (flags : List Nat) : α :=
-  flags.foldl (fun out f => match m.find? (·.1 == f) with
-    | some kv => if kv.2 > out then kv.2 else out
-    | none => out) 0
+/-- a unit's resistance to one behaviour flag: its own plus every attached instance's (additive) -/
+def dresTotal (base : List (Nat × α)) (l : List (Inst α)) (f : Nat) : α :=
+  let fromMods := l.foldl (fun acc i => i.dres.foldl (fun a q => if q.1 == f then a + q.2 else a) acc) (0 : α)
+  base.foldl (fun a q => if q.1 == f then a + q.2 else a) fromMods
+
+/-- `DebuffRESMap.GetDebuffRES`: the largest resistance among the given flags, never below 0 (0 if
+there is no flag); `m f` is the unit's total resistance to flag `f` -/
+def debuffRes (m : Nat → α) (flags : List Nat) : α :=
+  flags.foldl (fun out f => if m f > out then m f else out) 0
+
+/-- a unit's total resistance per flag as the resist roll sees it: its own and its attached instances' -/
+def unitDres (s : St α) (t : Int) (f : Nat) : α := dresTotal (s.dres t) (s.targets t) f
 
 /-- `attemptResist`: the chance an application has — base × (1 + effect hit rate of the source) ×
 (1 − effect resistance of the target) × (1 − its resistance to the shape's flags) -/
@@ -340,7 +350,7 @@ def lookupA (m : List (Int × α)) (t : Int) : α := ((m.find? (·.1 == t)).map 
 def baseChance (d : Desc α) : α := d.chance.headD 0
 
 def applyChance (s : St α) (t : Int) (d : Desc α) : α :=
-  baseChance d * (1 + lookupA s.ehr d.source) * (1 - lookupA s.eres t) * (1 - debuffRes (s.dres t) (cfgOf cat d.name).flags)
+  baseChance d * (1 + lookupA s.ehr d.source) * (1 - lookupA s.eres t) * (1 - debuffRes (unitDres s t) (cfgOf cat d.name).flags)
 
 /-- resisted: a positive base chance and the roll is not below the chance -/
 def resists (s : St α) (t : Int) (d : Desc α) : Bool :=
@@ -353,7 +363,7 @@ def execWith (rec : St α → Op α → Option (St α)) (s : St α) : Op α → 
     else if !validTarget d.source then some (emitEv s (.err "invalid_source"))
     else if resists cat s t d then
       some (emitEv (emitEv { s with draws := s.draws.tail, nextUid := s.nextUid + 1 }
-        (.resisted t d.source d.name (applyChance cat s t d) (baseChance d) (lookupA s.ehr d.source) (lookupA s.eres t) (debuffRes (s.dres t) (cfgOf cat d.name).flags)))
+        (.resisted t d.source d.name (applyChance cat s t d) (baseChance d) (lookupA s.ehr d.source) (lookupA s.eres t) (debuffRes (unitDres s t) (cfgOf cat d.name).flags)))
         (.ret false))
     else
       let s := if baseChance d > 0 then { s with draws := s.draws.tail } else s
@@ -455,5 +465,13 @@ def propTotal (base : List (Nat × α)) (l : List (Inst α)) (p : Nat) : α :=
 marks as weak — entries that say "not weak" never take a weakness away (`WeaknessMap.AddAll`) -/
 def weakTo (base : List (Nat × Bool)) (l : List (Inst α)) (t : Nat) : Bool :=
   base.contains (t, true) || l.any fun i => i.weak.contains (t, true)
+
+/-- `Stats.StatusCount`: how many attached instances have a shape of that status type -/
+def statusCount (cat : Catalog α) (l : List (Inst α)) (status : Nat) : Nat :=
+  (l.filter fun i => (cfgOf cat i.name).status == status).length
+
+/-- `Stats.HasBehaviorFlag`: some attached instance's shape carries the flag -/
+def hasFlag (cat : Catalog α) (l : List (Inst α)) (f : Nat) : Bool :=
+  l.any fun i => (cfgOf cat i.name).flags.contains f
 
 end Modifier
